@@ -307,7 +307,7 @@ def check(pid, tier, seed):
                     byrun = sorted(base, key=lambda t: (-hist_run(t['job']['events']), -t['ops']))
                     chosen = base[:n // 2]
                     chosen += [t for t in byrun if t not in chosen][:n - len(chosen)]
-                    out.add(max_hist_run=max(hist_run(t['job']['events']) for t in chosen))
+                    out.notes.append(f"longest run of history-only flushes ahead of the UTXO flush among the crash bases: {max(hist_run(t['job']['events']) for t in chosen)}")
                 elif pid == 'C15':
                     # the window must also be there after a crash inside a flush: every LevelDB commit of a few long runs
                     chosen = base[:(4 if quick else 10)]
@@ -341,6 +341,7 @@ def check(pid, tier, seed):
                      'continuation); distinct = distinct such tuples; every one indexes at least the genesis block')
         mine = CLAUSES[pid]
         known = known_findings(pid)
+        f7_seen = [0]
         seen = set()
         other = {}
         for f in sorted(failures, key=lambda f: (f['tid'], f['l'])):
@@ -360,7 +361,7 @@ def check(pid, tier, seed):
                 out.known_finding('F7 the process dies in flush_backup after the history rollback commit and before the '
                                   'UTXO rollback commit of a block the daemon still has: its history entries are lost '
                                   'for good (HistCorrect fails at the next catch-up)')
-                out.coverage['f7_observed'] = out.coverage.get('f7_observed', 0) + 1
+                f7_seen[0] += 1
                 continue
             if len(out.violations) < 5:
                 brief = {k: v for k, v in step.items() if k in ('ev', 'h', 'tip', 'hdrs', 'best', 'fresh', 'uc', 'txc', 'undo',
@@ -400,6 +401,8 @@ def check(pid, tier, seed):
                 diff = {f: (a, b) for f, a, b in zip(SCAL_FIELDS, p_['exp'], p_['got']) if a != b}
                 out.drift.append(f"Index.tla and the real block processor disagree after {p_['kind']} #{p_['k']} (model, code): {diff} "
                                  f"in scenario {[e['e'] for e in traces[p_['tid0']]['job']['events']][:40]}")
+        if f7_seen[0]:
+            out.notes.append(f'executions showing the known finding F7: {f7_seen[0]}')
         if other:
             out.notes.append(f'clauses of other properties failed on these runs (reported by their own checks): {other}')
         for t in traces[:2] + traces[-1:]:
